@@ -38,6 +38,23 @@ Check C19_paths : forall key pr dr cmd,
                 cmd = [RESTORE; key; ttl_restore p; raw].
 Print Assumptions C19_paths.
 
+
+(* batches (one SCAN reply, queued push requests): every RESTORE of a batch is built from the PTTL reply and payload of ITS OWN key,
+   and the RESTOREs follow the key order *)
+Theorem C19_batch_paths : forall l cmds cmd,
+  batch_cmds l = Some cmds -> In cmd cmds ->
+  exists key p raw, In (key, Integer p, Bulk raw) l /\ p <> PTTL_KEY_NOT_FOUND /\ cmd = [RESTORE; key; ttl_restore p; raw].
+Proof. exact batch_uses_own_ttl. Qed.
+Check C19_batch_paths : forall l cmds cmd,
+  batch_cmds l = Some cmds -> In cmd cmds ->
+  exists key p raw, In (key, Integer p, Bulk raw) l /\ p <> PTTL_KEY_NOT_FOUND /\ cmd = [RESTORE; key; ttl_restore p; raw].
+Print Assumptions C19_batch_paths.
+
+Example C19_batch_example :
+  batch_cmds [([107; 48], Integer [48], BulkNil); ([107; 49], Integer [45; 49], Bulk [98]); ([107; 50], Integer [54; 48], Bulk [99])]
+  = Some [[RESTORE; [107; 49]; [48]; [98]]; [RESTORE; [107; 50]; [54; 48]; [99]]].
+Proof. vm_compute. reflexivity. Qed.
+
 (* non-vacuity: the hypotheses are inhabited by concrete values *)
 Example C19_positive_example :
   btoi_i64 (ttl_restore (Z_to_dec 0)) = Some 1%Z /\ btoi_i64 (ttl_restore (Z_to_dec 1500)) = Some 1500%Z
